@@ -253,8 +253,9 @@ CHECKS["C17"] = dict(
 
 CHECKS["C18"] = dict(
     engine="authz", technique=_AUTHZ,
-    text="Finite table property: 22 console data endpoints (both API versions: config list/info/history/download/add/update/"
-         "remove, service/instance list and add, namespace list/update/remove) x 25 privilege shapes (white/black list: all, "
+    text="Finite table property: 34 console data endpoints (both API versions: config list/info/history/download/add/update/"
+         "remove, service list/get/add, instance list/info/add/update/remove, namespace list/update/remove, MCP tool spec "
+         "list/info/add/remove) x 25 privilege shapes (white/black list: all, "
          "none, {A}, {default}, mixed) x 5 namespace spellings (A, B, default omitted / empty / 'public') executed as a "
          "logged-in user on the real console app of a single-member Raft node with seeded data in three namespaces; "
          "NoForeignAccess (nothing of a forbidden namespace in the answer, state digest unchanged) and AllowedWorks evaluated "
